@@ -1484,6 +1484,10 @@ func checkEquality(v1, v2 reflect.Value) bool {
 	}
 
 	kind := v1.Kind()
+	if (isInt(kind) || isUint(kind)) && isFloat(v2.Kind()) {
+		// a floating-point operand makes the comparison floating-point (2 == 2.5 is false)
+		return toFloat(v1) == v2.Float()
+	}
 	if isInt(kind) {
 		return v1.Int() == toInt(v2)
 	}
